@@ -26,7 +26,10 @@ PathSets == {{}, {<<"c1", "x", "set">>}, {<<"c1", "x", "set">>, <<"c1", "y", "se
              {<<"c1", "x", "empty">>, <<"c2", "x", "set">>}, {<<"c3", "y", "set">>, <<"c1", "y", "empty">>},
              {<<"c1", "x", "set">>, <<"c2", "x", "set">>, <<"c3", "x", "set">>, <<"c1", "y", "set">>, <<"c2", "y", "set">>, <<"c3", "y", "set">>}}
 DefaultSec == [reltype |-> "ga", layered |-> FALSE, internal |-> FALSE, bptype |-> "ga", ctype |-> "production", respin |-> "r0",
-               label |-> "none", final |-> FALSE]
+               label |-> "none", final |-> FALSE, idform |-> "derived"]
+\* idform: the compose ID is free-form text.  "derived" = what create_compose_id() builds; "othertype" = an ID whose suffix spells
+\* another type and respin than the fields; "nodash" = an ID whose date is not preceded by a dash
+IdForms == {"derived", "othertype", "nodash"}
 
 VARIABLES nodes, typ, ar, pth, dashed, dashkid, sec
 vars == <<nodes, typ, ar, pth, dashed, dashkid, sec>>
@@ -49,7 +52,8 @@ Init ==
          /\ nodes = {<<"A">>} /\ typ = [p \in nodes |-> "variant"] /\ ar = [p \in nodes |-> {"x"}] /\ pth = [p \in nodes |-> {}]
          /\ dashed = FALSE /\ dashkid = FALSE
          /\ sec \in [reltype : RelTypes, layered : BOOLEAN, internal : BOOLEAN, bptype : {"ga", "updates", "eus"}, ctype : CTypes,
-                     respin : {"r0", "r7", "rbig"}, label : Labels, final : BOOLEAN]
+                     respin : {"r0", "r7", "rbig"}, label : Labels, final : BOOLEAN, idform : IdForms]
+         /\ (sec.idform # "derived" => (sec.reltype = "ga" /\ ~sec.layered /\ ~sec.internal /\ sec.label \in {"none", "RC"}))
          /\ (~sec.layered => sec.bptype = "ga") /\ (sec.label = "none" => (sec.reltype \in {"ga", "eus"}))
          /\ (sec.ctype \notin {"production", "nightly"} => (sec.respin = "r0" /\ sec.reltype = "ga" /\ ~sec.internal))
 Next == FALSE /\ UNCHANGED vars
